@@ -163,6 +163,20 @@ def body(case):
             out.add("selects-same", "selects-same|" + ("conditioned" if conditioned else "plain") + "|" + how[0],
                     f"{show(parts,250)} -> specs {show(specs,200)}; on {show(pd,120)} original {show(a,120)} rebuilt {show(b,120)} reference {show(sel,120)}")
             return out
+    # DataPath.to_spec: the same part specs under the key that names this path's own modifiers
+    if not out.violations:
+        try:
+            full = json.loads(json.dumps(p.to_spec()))
+            p3 = ns.d.DataPath.from_spec(full)
+            for pd in probes:
+                a = p.get_data(pd, return_paths=True)
+                b = p3.get_data(pd, return_paths=True)
+                if exact(a) != exact(b) and c10.sel_norm(a if isinstance(a, list) else [a] if a is not None else []) != c10.sel_norm(b if isinstance(b, list) else [b] if b is not None else []):
+                    out.add("selects-same", "selects-same|to_spec|" + how[0], f"{show(parts,200)}: to_spec {show(full,200)}; on {show(pd,120)} original {show(a,100)} rebuilt {show(b,100)}")
+                    return out
+        except Exception as e:
+            out.exc("to_spec", e)
+            return out
     # a sub-path taken from the (already serialised) path serialises as what IT selects
     if len(parts) >= 2 and not out.violations:
         k = 1 + len(repr(parts)) % (len(parts) - 1)
